@@ -220,7 +220,7 @@ func solve2(text, light string, timeout int, wantModel bool, all bool, tag strin
 		if r.ans == "light-sat" {
 			r.ans = "unknown"
 			if grace == nil {
-				grace = time.After(3 * time.Second)
+				grace = time.After(10 * time.Second)
 			}
 		}
 		final.All[r.sd.name] = r.ans
